@@ -56,6 +56,8 @@ Step ==
                /\ nviol' = nviol + Count(b1) + Count(b2)
                /\ open' = rest /\ pend' = "none" /\ UNCHANGED <<scen, where, deep>>
        [] ev = "probe" -> UNCHANGED <<scen, where, open, pend, deep, nviol>>
+       [] ev = "mdeep_b" -> deep' = "running" /\ UNCHANGED <<scen, where, open, pend, nviol>>
+       [] ev = "mdeep_e" -> deep' = "no" /\ UNCHANGED <<scen, where, open, pend, nviol>>
        [] ev = "deep_b" -> deep' = "running" /\ UNCHANGED <<scen, where, open, pend, nviol>>
        [] ev = "deep_e" -> deep' = "done" /\ UNCHANGED <<scen, where, open, pend, nviol>>
        [] ev = "co_error" -> /\ Viol("co_error", r.msg) /\ nviol' = nviol + 1
